@@ -99,6 +99,11 @@ fn package_toml_text(i: usize, deps: &[usize], dangling: Option<usize>) -> Strin
             p.push_str("\n[[dependencies]]\nuri = \"../some/relative/path\"\n");
         }
         p.push_str(&format!("\n[[dependencies]]\nuri = \"libcnb:{}\"\n", id(*j)));
+        if k == 0 && i % 2 == 0 {
+            // the first dependency listed twice (even nodes): a repeated entry neither hides the
+            // entries after it nor counts twice
+            p.push_str(&format!("\n[[dependencies]]\nuri = \"libcnb:{}\"\n", id(*j)));
+        }
     }
     if dangling == Some(i) {
         // unknown in three ways: a well-formed id nobody has, a string that is not a valid
@@ -435,7 +440,7 @@ pub fn run(args: &Args) {
     rep.cov("dangling_cases", dj.len() as u64);
     rep.cov("distinct_nontrivial", nontrivial);
     rep.cov("distinct_outcomes", json!(shapes));
-    rep.cov("rule", "every labelled DAG on <= n nodes (n<=4: every permutation of every dependency list; n=5: ascending and descending), written as composite / libcnb.rs buildpack directories and loaded by the real build_libcnb_buildpacks_dependency_graph; every ordered non-empty root selection through the real get_dependencies; plus every DAG on <= 4 nodes with one dangling libcnb: dependency at each node (a well-formed unknown id, an invalid id, or a reserved id, by node index), and every DAG on <= 3 nodes with one package.toml that is not valid UTF-8 (an error, not a leaf); node 1 is always a symlink to a directory outside the workspace root, nodes 0 and 3 live below top-level directories named `targets` and `target-jvm`; rescans: for every ordered pair (A, B) of DAGs on the same <= 3 nodes one directory is scanned as A, its package.toml files rewritten to B (buildpack.toml untouched) and scanned again in the same process, then back to A, then with a dangling reference added at each node: every scan must give exactly the edges on disk. non-trivial = workspaces with at least one edge");
+    rep.cov("rule", "every labelled DAG on <= n nodes (n<=4: every permutation of every dependency list; n=5: ascending and descending), written as composite / libcnb.rs buildpack directories and loaded by the real build_libcnb_buildpacks_dependency_graph; every ordered non-empty root selection through the real get_dependencies; plus every DAG on <= 4 nodes with one dangling libcnb: dependency at each node (a well-formed unknown id, an invalid id, or a reserved id, by node index), and every DAG on <= 3 nodes with one package.toml that is not valid UTF-8 (an error, not a leaf); even nodes list their first dependency twice; node 1 is always a symlink to a directory outside the workspace root, nodes 0 and 3 live below top-level directories named `targets` and `target-jvm`; rescans: for every ordered pair (A, B) of DAGs on the same <= 3 nodes one directory is scanned as A, its package.toml files rewritten to B (buildpack.toml untouched) and scanned again in the same process, then back to A, then with a dangling reference added at each node: every scan must give exactly the edges on disk. non-trivial = workspaces with at least one edge");
     rep.cov("bound", json!({"max_nodes": max_n}));
     rep.cov("exhaustive", true);
     rep.sample(json!({"dep_lists": jobs[jobs.len() / 2].1, "roots": "every ordered non-empty selection"}));
